@@ -1,7 +1,7 @@
 package main
 
 // Component `loadcfg` (C10 start-up part).
-// case : unk=<0|1> ups=<tag:hasaddr,…|-> dss=<tag,…|-> rules=<domain/forward;…|-> via=<run|bin>   ("_" = empty string)
+// case : unk=<0|1> ups=<tag:hasaddr,…|-> dss=<tag,…|-> rules=<domain/forward/reject;…|-> via=<run|bin>   ("_" = empty string)
 // out  : ok | rejected
 // via=run : the real router.run through the VerifRun hook (fast).
 // via=bin : the REAL binary (`mosproxy router -c <yaml>`, built by /verif/check from /repo, path in $MOSPROXY_BIN):
@@ -52,12 +52,19 @@ func runLoadCfg(cs string) string {
 			dss = append(dss, unq(t))
 		}
 	}
-	type rule struct{ d, f string }
+	type rule struct {
+		d, f   string
+		reject int
+	}
 	var rules []rule
 	if m["rules"] != "-" {
 		for _, t := range strings.Split(m["rules"], ";") {
 			f := strings.Split(t, "/")
-			rules = append(rules, rule{unq(f[0]), unq(f[1])})
+			rj := 0
+			if len(f) > 2 {
+				rj = atoi(f[2])
+			}
+			rules = append(rules, rule{unq(f[0]), unq(f[1]), rj})
 		}
 	}
 	if m["via"] == "bin" {
@@ -79,7 +86,7 @@ func runLoadCfg(cs string) string {
 		}
 		y.WriteString("rules:\n")
 		for i, r := range rules {
-			fmt.Fprintf(&y, "  - domain: %q\n    forward: %q\n", r.d, r.f)
+			fmt.Fprintf(&y, "  - domain: %q\n    forward: %q\n    reject: %d\n", r.d, r.f, r.reject)
 			if m["unk"] == "1" && i == 0 {
 				y.WriteString("    forwrad: \"typo\"\n") // an unknown key inside a rule
 			}
@@ -136,7 +143,7 @@ func runLoadCfg(cs string) string {
 		cfg.DomainSets = append(cfg.DomainSets, router.DomainSetConfig{Tag: d, Files: []string{dsFile}})
 	}
 	for _, r := range rules {
-		cfg.Rules = append(cfg.Rules, router.RuleConfig{Domain: r.d, Forward: r.f})
+		cfg.Rules = append(cfg.Rules, router.RuleConfig{Domain: r.d, Forward: r.f, Reject: uint16(r.reject)})
 	}
 	v, err := router.VerifRun(cfg)
 	if err != nil {
@@ -174,7 +181,7 @@ func genLoadCfg(r *rand.Rand, thorough bool, emit func(c, cat string)) {
 			dss = append(dss, tag)
 		}
 		for i := r.Intn(4); i > 0; i-- {
-			rules = append(rules, fmt.Sprintf("%s/%s", pick(5), pick(5)))
+			rules = append(rules, fmt.Sprintf("%s/%s/%d", pick(5), pick(5), []int{0, 0, 3, 5}[r.Intn(4)]))
 		}
 		j := func(l []string, sep string) string {
 			if len(l) == 0 {
